@@ -183,11 +183,11 @@ static void do_api(op_t op) {
                     if (!held && ON(R_PS)) for (int k = 0; k < m->nmb; k++) if (!m->mb[k].optional && m->mb[k].kind == 0 && m->mb[k].msg < nmsg_stop_entry && !owed_excused(i, k))   /* sent before this call */
                         vfail("PS.owed", MSG[m->mb[k].msg].sys ? "PS.owed|sys" : "PS.owed", "the loop stopped but message #%d (topic %s) owed to RUNNING module %s was never handed over", m->mb[k].msg,
                               MSG[m->mb[k].msg].topic < NTOPIC ? TOPIC[MSG[m->mb[k].msg].topic] : "-", m->name);
-                    for (int k = m->nmb - 1; k >= 0; k--) if (m->mb[k].optional) mb_remove(i, k);
+                    for (int k = m->nmb - 1; k >= 0; k--) if (m->mb[k].optional && m->mb[k].msg < nmsg_stop_entry) mb_remove(i, k);      /* (what was sent during this very call may have missed the module's turn in the flush: it stays, optional or owed as it was) */
                 } else {       /* discarded for everybody else - except what a batching module had already received and holds: whether that survives the loop end is unspecified (optional) */
                     int w = 0;
                     for (int k = 0; k < m->nmb; k++) { pend_t e = m->mb[k]; if (!e.optional && e.kind == 0) MSG[e.msg].owed--;
-                        if (e.kind == 0 && e.maybe_recvd && m->st == S_PAUSED) { e.optional = 1; m->mb[w++] = e; } }
+                        if (e.kind == 0 && m->st == S_PAUSED && (e.maybe_recvd || e.msg >= nmsg_stop_entry)) { e.optional = 1; m->mb[w++] = e; } }      /* sent during the flush itself: may have missed this module's turn */
                     m->nmb = w;
                 }
             }
